@@ -106,11 +106,14 @@ func (sm *sessionManager) SetEventCallback(func(interface{})) {}
 func (s *session) run() {
 	defer stats.DeleteSession(s.peerName)
 	for {
+		verifPoint("gate.connect", s)
 		if err := s.connect(); err != nil {
 			if err == errClosed {
+				verifPoint("run.exit", s)
 				return
 			}
 			level.Error(s.logger).Log("op", "connect", "error", err, "msg", "failed to connect to peer")
+			verifPoint("connect.failed", s)
 			backoff := s.backoff.Duration()
 			time.Sleep(backoff)
 			continue
@@ -120,7 +123,9 @@ func (s *session) run() {
 
 		level.Info(s.logger).Log("event", "sessionUp", "msg", "BGP session established")
 
+		verifPoint("gate.sendUpdates", s)
 		if !s.sendUpdates() {
+			verifPoint("run.exit", s)
 			return
 		}
 		stats.SessionDown(s.peerName)
@@ -147,6 +152,7 @@ func (s *session) sendUpdates() bool {
 	if s.new != nil {
 		s.advertised, s.new = s.new, nil
 	}
+	verifPoint("fold", s)
 
 	for c, adv := range s.advertised {
 		if err := sendUpdate(s.conn, s.MyASN, ibgp, fbasn, s.nextHop, adv); err != nil {
@@ -155,12 +161,15 @@ func (s *session) sendUpdates() bool {
 			return true
 		}
 		stats.UpdateSent(s.peerName)
+		verifPoint("full.sent:"+c, s)
 	}
 	stats.AdvertisedPrefixes(s.peerName, len(s.advertised))
 
 	for {
 		for s.new == nil && s.conn != nil {
+			verifPoint("wait.enter", s)
 			s.cond.Wait()
+			verifPoint("wait.woke", s)
 		}
 
 		if s.closed {
@@ -174,6 +183,7 @@ func (s *session) sendUpdates() bool {
 			// empty map which means "withdraw all".
 			continue
 		}
+		verifPoint("diff.begin", s)
 
 		for c, adv := range s.new {
 			if adv2, ok := s.advertised[c]; ok && adv.Equal(adv2) {
@@ -188,6 +198,7 @@ func (s *session) sendUpdates() bool {
 				return true
 			}
 			stats.UpdateSent(s.peerName)
+			verifPoint("diff.sent:"+c, s)
 		}
 
 		wdr := []*net.IPNet{}
@@ -205,8 +216,10 @@ func (s *session) sendUpdates() bool {
 				return true
 			}
 			stats.UpdateSent(s.peerName)
+			verifPoint("diff.withdrawn", s)
 		}
 		s.advertised, s.new = s.new, nil
+		verifPoint("diff.done", s)
 		stats.AdvertisedPrefixes(s.peerName, len(s.advertised))
 	}
 }
@@ -295,6 +308,7 @@ func (s *session) connect() error {
 	}
 
 	s.conn = conn
+	verifPoint("connected", s)
 	return nil
 }
 
@@ -411,13 +425,16 @@ func (s *session) sendKeepalive() error {
 // them. It does minimal checks for the well-formedness of messages,
 // and terminates the connection if something looks wrong.
 func (s *session) consumeBGP(conn io.ReadCloser) {
+	verifPoint("reader.start", s)
 	defer func() {
+		verifPoint("gate.reader", s)
 		s.mu.Lock()
 		defer s.mu.Unlock()
 		if s.conn == conn {
 			s.abort()
 		} else {
 			conn.Close()
+			verifPoint("reader.stale", s)
 		}
 	}()
 
@@ -477,6 +494,7 @@ func (s *session) Set(advs ...*bgp.Advertisement) error {
 	}
 
 	s.new = newAdvs
+	verifPoint("set", s)
 
 	stats.PendingPrefixes(s.peerName, len(s.new))
 	s.cond.Broadcast()
@@ -499,6 +517,7 @@ func (s *session) abort() {
 
 		stats.PendingPrefixes(s.peerName, len(s.advertised))
 	}
+	verifPoint("abort", s)
 	s.cond.Broadcast()
 }
 
@@ -508,6 +527,7 @@ func (s *session) Close() error {
 	defer s.mu.Unlock()
 	s.closed = true
 	s.abort()
+	verifPoint("close", s)
 	return nil
 }
 
